@@ -76,6 +76,13 @@ type Scenario struct {
 	Enabled bool `json:"enabled"`
 	Anon    bool `json:"anon"`
 	Ops     []Op `json:"ops"`
+
+	// Bulk > 0 selects the big-log profile: BulkOld entries for ads.example,
+	// then Bulk entries for b.test, all flushed; a search for the old ones must
+	// be continued through pages that come back empty but with a cursor.
+	Bulk     int `json:"bulk,omitempty"`
+	BulkOld  int `json:"bulk_old,omitempty"`
+	BulkPage int `json:"bulk_page,omitempty"`
 }
 
 var (
@@ -185,6 +192,14 @@ func Gen(t *rapid.T, tier string) any {
 		IvlH:    rapid.SampledFrom(intervals).Draw(t, "ivl_h"),
 		Enabled: rapid.IntRange(0, 19).Draw(t, "enabled") != 0,
 		Anon:    rapid.IntRange(0, 9).Draw(t, "anon") == 0,
+	}
+	if rapid.IntRange(0, 199).Draw(t, "bulk") == 97 {
+		sc.MemSize = rapid.SampledFrom([]int{5000, 700, 60000}).Draw(t, "bulk_mem")
+		sc.Enabled, sc.Anon = true, false
+		sc.Bulk = 50_000 + rapid.IntRange(-2, 30).Draw(t, "bulk_n")
+		sc.BulkOld = rapid.IntRange(1, 4).Draw(t, "bulk_old")
+		sc.BulkPage = rapid.IntRange(1, 3).Draw(t, "bulk_page")
+		return sc
 	}
 	maxOps := 60
 	if tier == "thorough" {
@@ -1295,6 +1310,83 @@ func (r *run) apply(op *Op) error {
 	return fmt.Errorf("harness: unknown op %q", op.K)
 }
 
+// bulk is the big-log profile: the matching entries lie behind more
+// non-matching file entries than one request scans, so the client has to follow
+// cursors of empty pages.
+func (r *run) bulk(sc *Scenario) error {
+	m := r.m
+	rec := func(host string) error {
+		return r.record(&qlogsim.Rec{GapNs: 1, Host: host, QType: dns.TypeA, IP: "10.1.2.3", NoAns: true})
+	}
+	for i := 0; i < sc.BulkOld; i++ {
+		if err := rec("ads.example"); err != nil {
+			return err
+		}
+	}
+	for i := 0; i < sc.Bulk; i++ {
+		if err := rec("b.test"); err != nil {
+			return err
+		}
+	}
+	if len(m.mem) > 0 {
+		if err := r.n.Flush(); err != nil {
+			return kernel.Violationf("flush-error", "flush of %d entries: %v", len(m.mem), err)
+		}
+		if err := r.observe("flush"); err != nil {
+			return err
+		}
+	}
+	r.c.Step()
+	want := m.all()[sc.Bulk:]
+	byTS := map[int64]*ent{}
+	for _, e := range want {
+		byTS[e.ts] = e
+	}
+	for _, mode := range []string{"cursor", "offset"} {
+		var paged []*ent
+		cursor := ""
+		for page := 0; ; page++ {
+			if page > 20 {
+				return kernel.Violationf(mode+"-paging-no-end", "big log, search=ads limit=%d: no end after %d pages", sc.BulkPage, page)
+			}
+			p := url.Values{"limit": {strconv.Itoa(sc.BulkPage)}, "search": {"ads"}}
+			if mode == "offset" {
+				p.Set("offset", strconv.Itoa(page*sc.BulkPage))
+			} else if cursor != "" {
+				p.Set("older_than", cursor)
+			}
+			resp, err := r.get(p)
+			if err != nil {
+				return err
+			}
+			items, err := r.sequence("big log search=ads "+mode+" page", resp.Data, byTS)
+			if err != nil {
+				return err
+			}
+			paged = append(paged, items...)
+			r.c.Eventf("  big log %s page %d: %d items, cursor %v", mode, page, len(items), resp.Oldest != "")
+			if mode == "offset" {
+				if len(items) == 0 {
+					break
+				}
+				continue
+			}
+			if resp.Oldest == "" {
+				break
+			}
+			if len(items) == 0 {
+				r.c.Probe("scan_limit_continuation")
+			}
+			cursor = resp.Oldest
+		}
+		if !sameSeq(paged, want) {
+			return seqDiff(mode+"-paging", fmt.Sprintf("big log (%d entries for b.test newer than %d for ads.example), search=ads limit=%d by %s: got [%s], recorded [%s]", sc.Bulk, sc.BulkOld, sc.BulkPage, mode, ids(paged), ids(want)), paged, want)
+		}
+	}
+	r.c.Step()
+	return nil
+}
+
 // reopen starts a new query log on the same directory from the persisted
 // configuration, as home does after a restart.
 func (r *run) reopen(mem int) error {
@@ -1330,6 +1422,9 @@ func Run(t *testing.T, scAny any, c *kernel.Ctx) error {
 		r := &run{n: n, m: m, c: c}
 		if err := r.open(m.conf); err != nil {
 			return err
+		}
+		if sc.Bulk > 0 {
+			return r.bulk(sc)
 		}
 		for i := range sc.Ops {
 			op := &sc.Ops[i]
@@ -1388,5 +1483,5 @@ var Prop = &kernel.Property{
 	FaultKinds: []string{"clean_restart", "process_crash", "clock_jump", "clear", "config_change", "memsize_change", "client_ignore_toggle", "hostile_request"},
 	ProbeNames: []string{"recorded", "flush_observed", "explicit_flush", "rotation_observed", "rotation_dropped_old_file", "rotation_at_exact_age", "entries_in_all_three_places",
 		"cursor_memory_to_file", "cursor_file_to_rotated", "page_ends_at_memory_boundary", "page_ends_at_file_boundary", "search_checked", "search_nonempty", "search_open_entries", "idn_search",
-		"ignored_hidden", "not_logged_ignored", "not_logged_disabled", "crash_lost_memory_entries", "legacy_conf_rejected", "hostile_rejected_4xx", "hostile_answered_200", "older_than_absent_incomplete"},
+		"ignored_hidden", "not_logged_ignored", "not_logged_disabled", "crash_lost_memory_entries", "legacy_conf_rejected", "hostile_rejected_4xx", "hostile_answered_200", "older_than_absent_incomplete", "scan_limit_continuation"},
 }
